@@ -1091,6 +1091,16 @@ def stage_survive(ctx):
                    dict(kind="spheroid", n=[1.5, 0.0], r=[s / 2, s], rotation=[0, 0.4, 0.3]),
                    dict(kind="cylinder", n=[1.5, 0.0], d=s, h=s / 2, rotation=[0, 0.4, 0.3])):
             add(sp, "size-underflow")
+    # extreme aspect ratios (one size ordinary, the other near the ends of the double range): the solver forms eps**2 and
+    # 1/eps**2
+    for e in (100, 150, 155, 160, 165, 200, 300):
+        for small_first in (True, False):
+            a, b = (10.0 ** -e, 1.0) if small_first else (1.0, 10.0 ** -e)
+            add(dict(kind="spheroid", n=[1.5, 0.0], r=[a, b], rotation=[0, 0.4, 0.3]), "aspect-extreme")
+            add(dict(kind="cylinder", n=[1.5, 0.0], d=a, h=b, rotation=[0, 0.4, 0.3]), "aspect-extreme")
+    for e in (155, 200):
+        add(dict(kind="spheroid", n=[1.5, 0.0], r=[10.0 ** e, 1.0], rotation=[0, 0.4, 0.3]), "aspect-extreme")
+        add(dict(kind="cylinder", n=[1.5, 0.0], d=1.0, h=10.0 ** e, rotation=[0, 0.4, 0.3]), "aspect-extreme")
     # sizes no particle has: negative or zero semi-axes / diameters / heights / radii (a sampler proposes them when a size
     # has a Gaussian prior); "any size" includes them: a Python exception is the expected outcome, not a dead interpreter
     bad = [dict(kind="spheroid", n=[1.5, 0.0], r=[-0.4, 0.6], rotation=[0, 0.4, 0.3]),
@@ -1126,7 +1136,7 @@ def stage_survive(ctx):
             key = {"euler-angle-guard": "stop:euler-angle-guard", "size-limit": "stop:size-limit",
                    "nonconvergence": "stop:nonconvergence", "detector-angle-guard": "stop:detector-angle-guard",
                    "bad-size": "stop:negative-size", "size-overflow": "stop:size-overflow",
-                   "size-underflow": "stop:size-underflow"}.get(
+                   "size-underflow": "stop:size-underflow", "aspect-extreme": "stop:aspect-extreme"}.get(
                        m["cls"], "stop:other:" + m["cls"])
             ctx.violation(key, "the interpreter was terminated (exit status %s, Fortran STOP) by a T-matrix calculation: %s %s"
                           % (r.get("rc"), m["cls"], json.dumps({k: v for k, v in m["scat"].items() if k != "center"})),
